@@ -159,22 +159,58 @@ def gen_pair_case(rng, nops, big):
     cfg = [gen_cfg(rng, big), gen_cfg(rng, big)]
     caps = gen_caps(rng)
     ops = []
-    slots = {}  # slot -> dict(side, kind, cap, r, w, opened?)
+    slots = {}  # slot -> dict(side, kind, cap, r, w, est)
     next_slot = 1
     total_written = 0
     budget = 40000 if not big else 400000
-    # directions: (connecting side, cap)
+    # directions: (connecting side, cap); approximate bookkeeping of which slots are established
     dirs = []
     for side in (0, 1):
         for cap, _ in caps[side]["connect"]:
             dirs.append((side, cap))
+    free = {d: (stream_limit(caps, d[0], 1, d[1]) or 0) if dict(map(tuple, caps[1 - d[0]]["accept"])).get(d[1]) is not None else 0 for d in dirs}
+    if not any(free.values()) and rng.chance(9, 10):
+        return gen_pair_case(rng, nops, big)   # (a few cases keep a partition without any stream)
+    live_dirs = [d for d in dirs if free[d] > 0] or dirs
+    pend = {d: ([], []) for d in dirs}     # (waiting accept slots, waiting connect slots)
+    pair_of = {}
+
+    def match(d):
+        acc, con = pend[d]
+        while acc and con and free[d] > 0:
+            x, y = acc.pop(0), con.pop(0)
+            free[d] -= 1
+            slots[x]["est"] = slots[y]["est"] = True
+            pair_of[x], pair_of[y] = y, x
+
+    def poke(r):
+        # does the pending read of r complete now? (estimate: flushed bytes of the counterpart, or it closed)
+        if r is None or r not in slots or slots[r]["rpend"] is None:
+            return
+        w = pair_of.get(r)
+        if w is None or w not in slots:
+            return
+        avail = slots[w]["fl"] - slots[r]["cons"]
+        if avail >= slots[r]["rpend"] or not slots[w]["w"]:
+            slots[r]["cons"] += max(0, min(avail, slots[r]["rpend"]))
+            slots[r]["rpend"] = None
+
+    def closed(s):
+        d = slots[s]["dir"]
+        o = pair_of.get(s)
+        if o is not None and all(not slots[z][h] for z in (s, o) if z in slots for h in ("r", "w")):
+            free[d] += 1
+            match(d)
+
     while len(ops) < nops:
         z = rng.below(100)
-        live = [s for s, d in slots.items()]
-        if (z < 14 or not live) and dirs and next_slot < 250:
-            side, cap = rng.choice(dirs)
-            which = rng.below(10)
-            # usually open both ends; sometimes only one end (the other later or never)
+        est = [s for s, d in slots.items() if d["est"]]
+        anyslot = list(slots)
+        pick = est if (est and rng.chance(19, 20)) else anyslot
+        if (z < 12 or not est) and dirs and next_slot < 250:
+            side, cap = d = rng.choice(dirs if (est and rng.chance(1, 3)) else live_dirs)
+            which = rng.below(10) if est else rng.below(7)
+            # usually open both ends; sometimes only one end (the other later or never), sometimes one too many
             if which < 7:
                 order = [(side, 1), (1 - side, 0)]
                 if rng.chance(1, 2):
@@ -187,20 +223,25 @@ def gen_pair_case(rng, nops, big):
                 order = [(side, 1), (1 - side, 0), (side, 1)]
             for (sd, kind) in order:
                 ops.append(["open", sd, kind, cap, next_slot])
-                slots[next_slot] = {"side": sd, "kind": kind, "cap": cap, "r": True, "w": True}
+                known = dict(map(tuple, caps[sd]["accept" if kind == 0 else "connect"])).get(cap) is not None
+                slots[next_slot] = {"side": sd, "kind": kind, "cap": cap, "r": True, "w": True, "est": False, "dir": d,
+                                    "wr": 0, "fl": 0, "cons": 0, "rpend": None}
+                if known:
+                    pend[d][kind].append(next_slot)
                 next_slot += 1
-        elif z < 16:
+            match(d)
+        elif z < 14:
             # invalid: unknown capability / reused slot / unknown slot
             k = rng.below(3)
             if k == 0:
                 ops.append(["open", rng.below(2), rng.below(2), 12345, next_slot])
                 next_slot += 1
-            elif k == 1 and live:
-                ops.append(["open", rng.below(2), rng.below(2), 0, rng.choice(live)])
+            elif k == 1 and anyslot:
+                ops.append(["open", rng.below(2), rng.below(2), 0, rng.choice(anyslot)])
             else:
                 ops.append([rng.choice(["flush", "dropw", "dropr"]), 999])
-        elif z < 45:
-            ws = [s for s in live if slots[s]["w"]]
+        elif z < 42:
+            ws = [s for s in pick if slots[s]["w"]]
             if not ws:
                 continue
             s = rng.choice(ws)
@@ -211,42 +252,59 @@ def gen_pair_case(rng, nops, big):
                 n = rng.below(50)
             total_written += n
             ops.append(["write", s, n])
+            wfs_ = cfg[slots[s]["side"]][3]
+            slots[s]["wr"] += n
+            slots[s]["fl"] = max(slots[s]["fl"], (slots[s]["wr"] - 1) // wfs_ * wfs_ if slots[s]["wr"] else 0)
             if rng.chance(1, 2):
                 ops.append(["flush", s])
-        elif z < 52:
-            ws = [s for s in live if slots[s]["w"]]
+                slots[s]["fl"] = slots[s]["wr"]
+            poke(pair_of.get(s))
+        elif z < 48:
+            ws = [s for s in pick if slots[s]["w"]]
             if ws:
-                ops.append(["flush", rng.choice(ws)])
+                s = rng.choice(ws)
+                ops.append(["flush", s])
+                slots[s]["fl"] = slots[s]["wr"]
+                poke(pair_of.get(s))
         elif z < 80:
-            rs = [s for s in live if slots[s]["r"]]
+            rs = [s for s in pick if slots[s]["r"] and (slots[s]["rpend"] is None or rng.chance(1, 20))]
             if not rs:
                 continue
             s = rng.choice(rs)
             n = rng.choice([0, 1, 2, 5, 10, 50, 79, 100, 101, 500, 1000, 5000, rng.below(4000)])
+            w = pair_of.get(s)
+            if w is not None and w in slots and rng.chance(1, 2):
+                # often ask for what is (nearly) there
+                n = max(0, slots[w]["fl"] - slots[s]["cons"] + rng.choice([-1, 0, 0, 0, 1]))
             if big and rng.chance(1, 4):
                 n = rng.choice([65536, 70000, 100000])
             ops.append(["read", s, n])
-        elif z < 90:
-            ws = [s for s in live if slots[s]["w"]]
+            if slots[s]["rpend"] is None:
+                slots[s]["rpend"] = n
+                poke(s)
+        elif z < 91:
+            ws = [s for s in pick if slots[s]["w"]]
             if ws:
                 s = rng.choice(ws)
                 slots[s]["w"] = False
+                slots[s]["fl"] = slots[s]["wr"]
                 ops.append(["dropw", s])
-                if rng.chance(1, 3) and slots[s]["r"]:
+                poke(pair_of.get(s))
+                if rng.chance(1, 3) and slots[s]["r"] and slots[s]["rpend"] is None:
                     slots[s]["r"] = False
                     ops.append(["dropr", s])
+                closed(s)
         else:
-            rs = [s for s in live if slots[s]["r"]]
+            rs = [s for s in pick if slots[s]["r"] and (slots[s]["rpend"] is None or rng.chance(1, 20))]
             if rs:
                 s = rng.choice(rs)
-                slots[s]["r"] = False
                 ops.append(["dropr", s])
-        for s in list(slots):
-            if not slots[s]["r"] and not slots[s]["w"]:
-                del slots[s]
+                if slots[s]["rpend"] is None:
+                    slots[s]["r"] = False
+                    closed(s)
     # drain: read everything that is left so that completeness is observable
     for s, d in list(slots.items()):
-        if d["r"] and rng.chance(3, 4):
+        if d["r"] and d["est"] and d["rpend"] is None and rng.chance(3, 4):
             ops.append(["read", s, 1 << 20 if big else 50000])
     return {"mode": "pair", "cfg": cfg, "caps": caps, "ops": ops, "kind": "pair"}
 
@@ -275,6 +333,7 @@ def gen_raw_case(rng, nops):
     next_slot = 1
     slots = []
     bad_at = rng.below(nops * 3) if rng.chance(1, 3) else -1
+    bad_index = None
     for k in range(nops):
         z = rng.below(100)
         # peer frames from its CONNECT ends go to B's accept table and vice versa
@@ -282,6 +341,7 @@ def gen_raw_case(rng, nops):
         n = nacc if sk == SK_CONNECT else ncon
         if k == bad_at:
             w = rng.below(4)
+            bad_index = len(ops)
             if w == 0:
                 ops.append(["rawframe", raw_hdr(rng.choice([FK_OPEN, FK_DATA, FK_CLOSE]), sk, n + rng.below(3)), -1, 0]); kind = "raw-badid"
             elif w == 1:
@@ -321,7 +381,10 @@ def gen_raw_case(rng, nops):
             ops.append(["write", rng.choice(slots), rng.choice([0, 1, 100, 1000])])
         else:
             ops.append(["rawbytes", [rng.below(256)]])   # a single byte: partial header
-    return {"mode": "raw", "cfg": [[1, 0, 0, 1], cfgB], "caps": caps, "ops": ops, "kind": kind}
+    c = {"mode": "raw", "cfg": [[1, 0, 0, 1], cfgB], "caps": caps, "ops": ops, "kind": kind}
+    if kind.startswith("raw-bad"):
+        c["bad_at"] = bad_index
+    return c
 
 
 def gen_flood_case(rng):
@@ -360,9 +423,9 @@ def corpus_cases():
     return [
         # F4 regression: header with both frame kind bits set, stream id in range (was unreachable!())
         {"mode": "raw", "cfg": [[1, 0, 0, 1], [100, 1000, 10, 100]], "caps": one,
-         "ops": [["rawframe", 0xC000 | SK_CONNECT, -1, 0]], "kind": "raw-badkind F4"},
+         "ops": [["rawframe", 0xC000 | SK_CONNECT, -1, 0]], "kind": "raw-badkind F4", "bad_at": 0},
         {"mode": "raw", "cfg": [[1, 0, 0, 1], [100, 1000, 10, 100]], "caps": one,
-         "ops": [["rawframe", 0xC000, -1, 0]], "kind": "raw-badkind F4"},
+         "ops": [["rawframe", 0xC000, -1, 0]], "kind": "raw-badkind F4", "bad_at": 0},
         # the worked example of the module documentation, both directions, partial reads
         {"mode": "pair", "cfg": [[100, 1000, 10, 150], [80, 800, 7, 79]],
          "caps": [{"accept": [[0, 2]], "connect": [[0, 2], [3, 1]]}, {"accept": [[0, 3], [3, 1]], "connect": [[0, 1]]}],
@@ -567,9 +630,23 @@ def predicate(c, o):
     if c["kind"].startswith("raw-flood"):
         bad += pred_flood(c, o)
     if c["kind"].startswith("raw-bad") and "obs" in o:
-        st = o["obs"][-1][5]
-        if st != [[1, 4]]:
-            bad.append({"failed": f"a frame with an unassigned kind / out-of-range stream id ended with status {st}, expected Protocol"})
+        # applies when every earlier frame was well formed and the multiplexer got as far as the bad header
+        sent, aligned, reached = 0, True, None
+        for k, op in enumerate(c["ops"]):
+            if op[0] == "rawframe":
+                is_data = (op[1] & 0xC000) == 0x4000
+                if k != c.get("bad_at") and (is_data != (op[2] >= 0) or (is_data and op[2] != op[3]) or (not is_data and op[3] != 0)):
+                    aligned = False
+                sent += 2 + (2 + op[3] if op[2] >= 0 else 0)
+                if k == c.get("bad_at"):
+                    reached = sent
+                    break
+            elif op[0] in ("rawbytes", "rawclose"):
+                aligned = False
+        if aligned and reached is not None and len(o["obs"]) > c["bad_at"] + 1:
+            ob = o["obs"][c["bad_at"] + 1]
+            if ob[4] >= reached and ob[5] != [[1, 4]]:
+                bad.append({"failed": f"a frame with an unassigned kind / out-of-range stream id was read and the run ended with status {ob[5]}, expected Protocol"})
     return bad
 
 
@@ -583,7 +660,7 @@ def build_cases(rng, tier):
         cases += json.load(open(p))
     cases += gen_header_cases(rng, 0)
     cases += gen_verify_cases(rng, 40 if q else 400)
-    npair, nbig, nraw, nflood, nops = (110, 6, 70, 40, 40) if q else (2200, 300, 1400, 600, 70)
+    npair, nbig, nraw, nflood, nops = (90, 5, 60, 30, 40) if q else (2200, 300, 1400, 600, 70)
     cases += [gen_pair_case(rng, rng.range(10, nops), False) for _ in range(npair)]
     cases += [gen_pair_case(rng, rng.range(10, nops), True) for _ in range(nbig)]
     cases += [gen_raw_case(rng, rng.range(5, nops)) for _ in range(nraw)]
